@@ -278,6 +278,7 @@ def part_partial_positions(ctx):
     except ImportError:
         ctx.count('positions:IntegralGrader skipped (no scipy in the test environment)')
         classes = [(SumGrader, 'summand', 'summation_variable', '1')]
+    masks, mmeta = [], []
     for cls, body, var, lo in classes:
         fields = ['lower', 'upper', body, var]
         for which in ('upper', 'lower', 'body'):
@@ -293,7 +294,14 @@ def part_partial_positions(ctx):
                     ctx.count('positions:config_rejected'); continue
                 def submit(entries):
                     inp = [entries[f] for f in sub]
-                    return inp, D.run_impl(lambda: g(None, inp if len(inp) > 1 else inp[0]))
+                    out = D.run_impl(lambda: g(None, inp if len(inp) > 1 else inp[0]))
+                    # the model's scope decision for the student's evaluation: typed entries in the scrubbed scope, the author's in the full one
+                    full = dict(author, **{f: entries[f] for f in sub})
+                    sj = scope_json(g, set())
+                    masks.append({'op': 'sum_scope', 'sample_names': sj['sample_names'], 'instructor_vars': sj['instructor_vars'], 'functions': sj['functions'], 'suffixes': sj['suffixes'],
+                                  'asked': {'lower': 'lower' in sub, 'upper': 'upper' in sub, 'body': body in sub}, 'dummy': full[var], 'lower': full['lower'], 'upper': full['upper'], 'body': full[body]})
+                    mmeta.append(({'part': 'positions-model', 'class': cls.__name__, 'positions': pos, 'student': inp, 'author': author}, out))
+                    return inp, out
                 inp, (k, v) = submit(honest)
                 case = {'part': 'positions', 'class': cls.__name__, 'positions': pos, 'author_limit_with_instructor_var': which, 'student': inp}
                 if not (k == 'out' and v['ok'] is True):
@@ -308,6 +316,18 @@ def part_partial_positions(ctx):
                         if not (k == 'err' and v[0] is True and v[1] == 'UndefinedVariable'):
                             ctx.violation('instructor variable used in the student\'s %s: must be refused as an undefined variable' % f, case, impl=v if k == 'err' else GG.canon_result(v))
                         ctx.case(case, nontrivial_key=('pos', cls.__name__, which, repr(pos), f, cheat), kind='positions:cheat:' + f)
+    if ctx.driver and masks:
+        for (case, (k, v)), o in zip(mmeta, ctx.driver.ask_many(masks)):
+            if 'err' in o and o['err'][0] == 'UndefinedVariable':
+                names = o['err'][1]
+                if not (k == 'err' and v[1] == 'UndefinedVariable' and all(("'%s'" % nm) in v[2] for nm in names)):
+                    ctx.disagree('Sum/Integral entry scopes: the model refuses %r as undefined in the %s entry, the implementation does not' % (names, o['err'][2]), case, v if k == 'err' else GG.canon_result(v), o)
+            elif 'out' in o:
+                if k == 'err' and v[1] in ('UndefinedVariable', 'UndefinedFunction'):
+                    ctx.disagree('Sum/Integral entry scopes: the model finds every name in scope, the implementation raises', case, v, o)
+            else:
+                ctx.count('positions-model:other')
+        ctx.count('positions:model comparisons', len(masks))
 
 
 POISON = ['sqrt(4) + ' + '(' * 80 + '1' + ')' * 80, 'tan(1) + cos(2) + ' + '(' * 120 + 'x' + ')' * 120, 'sqrt(', 'sqrt(2)) + tan(1', 'f(sqrt(1), tan(2) +', 'sqrt(1) + 2 3', '[' * 70 + 'sqrt(1)' + ']' * 70]
